@@ -85,7 +85,7 @@ let show (o : iout) = Printf.sprintf "%d %s" o.t o.text
 let run (hist : string) (impl : string) =
   let hs = Gw_io.read_histories hist in
   let itbl = parse_impl impl in
-  let nh = ref 0 and nev = ref 0 and nout = ref 0 and ndiv = ref 0 and nfail = ref 0 in
+  let nh = ref 0 and nev = ref 0 and nout = ref 0 and ndiv = ref 0 and nfail = ref 0 and nside = ref 0 in
   let kinds = Hashtbl.create 64 in
   let bump k = Hashtbl.replace kinds k (1 + (try Hashtbl.find kinds k with Not_found -> 0)) in
   let nontriv = Hashtbl.create 1024 in
@@ -113,6 +113,8 @@ let run (hist : string) (impl : string) =
          List.iteri (fun k (text, ev) ->
              incr nev;
              let (s', outs) = gw_step hst.cfg !s ev in
+             (* the executable side condition of the timed theorems: steps that fail it are outside them *)
+             if not (clock_ok hst.cfg !s ev) then incr nside;
              let mouts = List.concat_map model_outs outs in
              let iouts = if k < Array.length ievs then snd ievs.(k) else [] in
              if k >= Array.length ievs then mismatch "MISSING-EVENT" k ("event not executed by the implementation: " ^ text);
@@ -129,7 +131,7 @@ let run (hist : string) (impl : string) =
                  (if m.text <> i.text && eqv hst.cfg !s m i then { i with text = m.text } else i) :: canon ms' is'
                | _, is -> is in
              let ciouts = canon mouts iouts in
-             let (fails, mon') = Chk_gw.step hst.cfg !s s' ev ciouts !mon in
+             let (fails, mon') = Chk_gw.step hst.cfg !s s' ev ciouts outs !mon in
              mon := mon';
              List.iter (fun (p, c) ->
                  fail p c k (Printf.sprintf "event=%s impl=[%s]" text (String.concat "; " (List.map show iouts)))) fails;
@@ -148,6 +150,6 @@ let run (hist : string) (impl : string) =
            hst.events))
     hs;
   let ks = Hashtbl.fold (fun k v acc -> (k, v) :: acc) kinds [] |> List.sort compare in
-  Printf.printf "STAT evaluations=%d nontrivial=%d histories=%d outputs=%d\n" !nev (Hashtbl.length nontriv) !nh !nout;
+  Printf.printf "STAT evaluations=%d nontrivial=%d histories=%d outputs=%d side_condition_failed_steps=%d\n" !nev (Hashtbl.length nontriv) !nh !nout !nside;
   Printf.printf "SUMMARY gw histories=%d events=%d outputs=%d diverging=%d failures=%d kinds=%s\n" !nh !nev !nout !ndiv !nfail
     (String.concat "," (List.map (fun (k, v) -> k ^ ":" ^ string_of_int v) ks))
